@@ -307,6 +307,11 @@ func (cs *autoGrowingCallFrameStack) Sp() int {
 func (cs *autoGrowingCallFrameStack) SetSp(sp int) {
 	desiredSegIdx := segIdx(sp / FramesPerSegment)
 	desiredFramesInLastSeg := uint8(sp % FramesPerSegment)
+	if desiredSegIdx > cs.segIdx {
+		// sp is the current depth at a segment boundary, held as a full segment
+		// (segIdx, FramesPerSegment): there is nothing to unwind
+		return
+	}
 	for {
 		if cs.segIdx <= desiredSegIdx {
 			break
